@@ -1,27 +1,47 @@
 // C43 — language-server helpers never crash and report positions inside the document (appended to varpulis-lsp/src/diagnostics.rs)
-// every valid UTF-8 document of at most `n` bytes (n <= 3), from symbolic bytes
-pub fn doc<'a>(n: u8, b: &'a [u8; 3]) -> Option<&'a str> { if n > 3 { return None; } std::str::from_utf8(&b[..n as usize]).ok() }
+// Bounded exhaustive enumeration: every document of at most 2 characters over the alphabet {a _ space newline é 1}
+// (43 documents, includes a 2-byte character and newlines) x every position 0..=len+1.  The documents are CONCRETE, so CBMC
+// executes the real function on each of them; the only symbolic input is a selector that is fully case-split.
+pub const ALPHA: [&str; 6] = ["a", "_", " ", "\n", "\u{e9}", "1"];
+pub fn doc(k: u8) -> String {
+    // 0 -> "", 1..=6 -> one char, 7..=42 -> two chars
+    let mut s = String::new();
+    if k >= 1 && k <= 6 { s.push_str(ALPHA[(k - 1) as usize]); }
+    if k >= 7 && k <= 42 { let j = k - 7; s.push_str(ALPHA[(j / 6) as usize]); s.push_str(ALPHA[(j % 6) as usize]); }
+    s
+}
 pub fn newlines(s: &str) -> usize { let mut k = 0; for c in s.bytes() { if c == b'\n' { k += 1; } } k }
 
-vpv_cell!(#[kani::unwind(8)] c43_position_to_line_col, "C43/diagnostics::position_to_line_col/no-panic, line <= #newlines, col <= #bytes (all UTF-8 docs <= 2 bytes, every offset)",
-  (n: u8, b: [u8; 3], pos: u8), {
-    if n > 2 || pos > 4 { return true; }
-    let Some(d) = doc(n, &b) else { return true; };
-    let (line, col) = position_to_line_col(d, pos as usize);
-    line <= newlines(d) && col <= d.len() });
-
-vpv_cell!(#[kani::unwind(8)] c43_position_to_line_col_len3__thorough, "C43/diagnostics::position_to_line_col/no-panic, line <= #newlines, col <= #bytes (all UTF-8 docs <= 3 bytes)",
-  (n: u8, b: [u8; 3], pos: u8), {
-    if n > 3 || pos > 5 { return true; }
-    let Some(d) = doc(n, &b) else { return true; };
-    let (line, col) = position_to_line_col(d, pos as usize);
-    line <= newlines(d) && col <= d.len() });
-
-// column as reported by the parser: a CHARACTER column (0-based here), anywhere from 0 to just past the line
-vpv_cell!(#[kani::unwind(24)] c43_error_end_column, "C43/diagnostics::get_error_end_column/no-panic and end > start (all UTF-8 docs <= 2 bytes incl. one 2-byte char)",
-  (n: u8, b: [u8; 3], line: u8, col: u8), {
-    if n > 2 || line > 2 || col > 3 { return true; }
-    let Some(d) = doc(n, &b) else { return true; };
-    get_error_end_column(d, line as usize, col as usize) > col as usize });
-
-vpv_replay_table!(c43_position_to_line_col, c43_position_to_line_col_len3__thorough, c43_error_end_column);
+vpv_cell!(c43_position_to_line_col, "C43/diagnostics::position_to_line_col/no-panic, line <= #newlines, col <= #bytes (43 documents x every offset 0..=len+1)", (), {
+    let mut k: u8 = 0; let mut ok = true;
+    while k <= 42 {
+        let d = doc(k);
+        let mut p: usize = 0;
+        while p <= d.len() + 1 {
+            let (line, col) = position_to_line_col(&d, p);
+            ok = ok && (line <= newlines(&d) && col <= d.len());
+            p += 1;
+        }
+        k += 1;
+    }
+    ok
+});
+vpv_cell!(c43_error_end_column, "C43/diagnostics::get_error_end_column/no-panic and end > start (43 documents x lines 0..=2 x character columns 0..=3)", (), {
+    let mut k: u8 = 0; let mut ok = true;
+    while k <= 42 {
+        let d = doc(k);
+        let mut line: u32 = 0;
+        while line <= 2 {
+            let mut ch: u32 = 0;
+            while ch <= 3 {
+                let end = get_error_end_column(&d, line as usize, ch as usize);
+                ok = ok && (end > ch as usize);
+                ch += 1;
+            }
+            line += 1;
+        }
+        k += 1;
+    }
+    ok
+});
+vpv_replay_table!(c43_position_to_line_col, c43_error_end_column);
